@@ -412,6 +412,9 @@ func (e *Exec) formatOne(caller *frame, spec string, verb byte, arg Value) Str {
 			}
 			return mkStr("false")
 		}
+		if spec == "%v" && v.t.sort.K == SFP64 {
+			return e.formatSymFloat(v.t)
+		}
 		panic(abortErr{"fragment", "symbolic " + v.t.sort.String() + " formatted with " + spec})
 	case Slice:
 		// []byte with symbolic bytes under %s
@@ -564,6 +567,26 @@ func (e *Exec) formatSymInt(t *Term, k types.BasicKind) Str {
 		s = concatStr(mkStr("-"), s)
 	}
 	return s
+}
+
+// formatSymFloat prints a symbolic float64 the way %v does, for the values whose
+// shortest representation is an integer without exponent: integral, |x| < 1e15.
+// Anything else is outside the fragment (strconv's shortest-digits algorithm).
+func (e *Exec) formatSymFloat(t *Term) Str {
+	tt := e.tt
+	integral := tt.FPCmp("fp.eq", tt.FPRound("RTZ", t), t)
+	small := tt.And(tt.FPCmp("fp.lt", t, tt.FP64(1e15)), tt.FPCmp("fp.gt", t, tt.FP64(-1e15)))
+	if !e.path.branch(e, tt.And(integral, small), "fmt float integral") {
+		panic(abortErr{"fragment", "symbolic float64 that is not a small integer formatted with %v"})
+	}
+	if e.path.branch(e, tt.FPCmp("fp.eq", t, tt.FP64(0)), "fmt float zero") {
+		// +0 prints "0", -0 prints "-0": distinguish by 1/x
+		if e.path.branch(e, tt.FPCmp("fp.lt", tt.FPBin("fp.div", tt.FP64(1), t), tt.FP64(0)), "fmt float negzero") {
+			return mkStr("-0")
+		}
+		return mkStr("0")
+	}
+	return e.formatSymInt(tt.FPToBV(t, 64, true), types.Int64)
 }
 
 // ---------- marshalling engine values to Go values (concrete only) ----------
